@@ -397,6 +397,30 @@ func c03Snapshots(w *World, r *Report, a *FsmA) {
 			}
 		}
 	}
+	// the view is pinned by prepare, save only reads what was prepared
+	isPin := func(in ssa.Instruction) bool {
+		return isCallTo(in, "(*"+pebblePath+".DB).NewSnapshot", "(*"+pebblePath+".DB).Checkpoint")
+	}
+	for _, fn := range prepares {
+		ob.Site(fn.Pos(), "prepare "+FnName(fn))
+		if p := (&Walk{Barrier: isPin, Target: isSuccessReturn}).Find(entry(fn)); p != nil {
+			ob.Violate("prepare-does-not-pin@"+FnName(fn), fn.Pos(), "prepare can return without pinning a view (NewSnapshot / Checkpoint): the image is taken when it is saved, after further writes, and no longer matches the index dragonboat records for it", w.PathString(p)...)
+		}
+	}
+	for _, fn := range saves {
+		for _, f := range withClosures(fn) {
+			eachInstr(f, func(in ssa.Instruction) {
+				c := callOf(in)
+				if c == nil {
+					return
+				}
+				n := CalleeName(c)
+				if isPin(in) || n == "(*"+pebblePath+".DB).NewIter" || n == "(*"+pebblePath+".DB).Flush" || (strings.HasSuffix(n, ".Load") && strings.Contains(Expr(c.Args[0]), ".pebble")) {
+					ob.Violate("save-reads-live-db@"+FnName(fn), in.Pos(), "the snapshot saver touches the live DB ("+shortName(n)+") instead of the prepared view")
+				}
+			})
+		}
+	}
 	// prepare of the checkpoint format: Flush before Checkpoint on the same DB
 	for _, fn := range prepares {
 		cps := callsIn(fn, false, "(*"+pebblePath+".DB).Checkpoint")
@@ -412,5 +436,5 @@ func c03Snapshots(w *World, r *Report, a *FsmA) {
 			}
 		}
 	}
-	ob.NeedFloor(5)
+	ob.NeedFloor(7)
 }
